@@ -308,8 +308,39 @@ def gen_method(rng):
     return [2, m, recv, args]
 
 
+BIG_DIVIDENDS = [2**53 + 1, 2**53 + 3, 9007199254740993, 2**54 + 2, 10**17 + 1, 2**63 + 1, 2**64 + 3, 10**30 + 7, 3**200,
+                 10**308 * 2, 10**400, 10**400 + 1, 7 * 10**399]
+BIG_DIVISORS = [1, 3, 7, 10, 2**53 + 1, 10**17 + 1, 100000000000000001, 10**30 + 7, 3**199, 10**399, 10**400, 2**1030]
+
+
+def gen_int_stress(rng, table):
+    """integer operators on operands that are not exactly representable as doubles (beyond 2**53) or beyond the float range:
+    a wrapper that converts to float too early (or at all, for //, %, comparisons) differs from Python here"""
+    def big(pool):
+        r = rng.random()
+        if r < 0.55:
+            return rng.choice(pool)
+        if r < 0.8:
+            return rng.randint(2**53, 2**70) | 1
+        if r < 0.93:
+            return rng.randint(2**100, 2**160) | 1
+        return rng.randint(2**1024, 2**1100)
+    o = 3 if rng.random() < 0.7 else rng.choice([0, 1, 2, 4, 5, 7, 9, 12])
+    ta = rng.choice([0, 0, 1, 1, 1, 3, 2])
+    tb = rng.choice([0, 0, 1, 1, 3])
+    x = big(BIG_DIVIDENDS) if ta != 2 else rng.randint(0, 1)
+    y = big(BIG_DIVISORS) if rng.random() < 0.8 else rng.choice([1, 2, 3, 5, 7, 10])
+    if ta in (1, 3) and rng.random() < 0.4:
+        x = -x
+    if tb in (1, 3) and rng.random() < 0.3:
+        y = -y
+    return [0, o, [ta, x], [tb, y]]
+
+
 def gen_case(rng, table):
     r = rng.random()
+    if r < 0.07:
+        return gen_int_stress(rng, table)
     if r < 0.62:
         return gen_binop(rng, table)
     if r < 0.70:
@@ -359,10 +390,35 @@ def show_case(c):
     return "%s(%s)" % (CLS_NAMES[c[1]], show_val(c[2]))
 
 
+_CORE_COPY = {}
+
+
+def core_copy(core=None):
+    """Nothing is carried from one run to the next: the runtime modules are imported from a fresh private copy of
+    REPO/crates/erg_compiler/lib/core/*.py made for this process (so no __pycache__ of an earlier tree can be picked up
+    and none is written into the tree under test); removed at exit."""
+    import atexit
+    import tempfile
+    src = core or CORE
+    if src not in _CORE_COPY:
+        os.makedirs(os.path.join(CACHE, "tmp"), exist_ok=True)
+        d = tempfile.mkdtemp(prefix="c26-core-", dir=os.path.join(CACHE, "tmp"))
+        n = 0
+        for f in sorted(os.listdir(src)):
+            if f.endswith(".py"):
+                shutil.copy(os.path.join(src, f), os.path.join(d, f))
+                n += 1
+        if n == 0:
+            raise TieBroken("no runtime modules (*.py) in %s" % src)
+        atexit.register(shutil.rmtree, d, True)
+        _CORE_COPY[src] = d
+    return _CORE_COPY[src]
+
+
 def run_driver(ctx, ver, cases, core=None):
     """the real runtime modules under one interpreter; one process, one line per case"""
     inp = "\n".join(sx_dump(c) for c in cases) + "\n"
-    p = sh([PY_VERSIONS[ver], DRIVER, core or CORE], inp=inp, timeout=1800)
+    p = sh([PY_VERSIONS[ver], "-B", DRIVER, core_copy(core)], inp=inp, timeout=1800, env={"PYTHONDONTWRITEBYTECODE": "1"})
     lines = [l for l in p.stdout.splitlines() if l.strip()]
     if p.returncode != 0 or len(lines) != len(cases):
         # the runtime modules no longer import / crash the interpreter: that is a broken tie, not a framework error
@@ -447,6 +503,32 @@ def small_scope(table):
     return out
 
 
+def int_grid():
+    """deterministic part of every run: every operator on every ordered pair of the integer classes (and Float against
+    them) over a boundary grid of values -- negative, zero, one, beyond 2**64 -- so that a wrapper that mis-handles one
+    (operator, class pair, sign) combination cannot slip through the random stream"""
+    vals = {0: [0, 1, 7, 2**64 + 3], 1: [-7, -1, 0, 3, -(2**64) - 3], 2: [0, 1], 3: [-2, 5], 4: [1],
+            5: [f2b(-1.5), f2b(0.0), f2b(2.0)]}
+    out = []
+    for o in range(13):
+        for ta in (0, 1, 2, 3, 4, 5):
+            for tb in (0, 1, 2, 3, 4, 5):
+                if ta == 5 and tb == 5:
+                    continue
+                for x in vals[ta]:
+                    for y in vals[tb]:
+                        if o == 6 and tb != 5 and abs(y) > 7:       # keep powers computable
+                            continue
+                        if o == 6 and ta != 5 and tb != 5 and abs(x) > 2**64 and abs(y) > 3:
+                            continue
+                        out.append([0, o, [ta, x], [tb, y]])
+    for u in range(3):
+        for ta in (0, 1, 2, 3, 4, 5):
+            for x in vals[ta]:
+                out.append([1, u, [ta, x]])
+    return out
+
+
 def shrink_case(c, still_fails):
     """make the integers of a failing case small"""
     import copy
@@ -472,7 +554,7 @@ def shrink_case(c, still_fails):
         for k in p:
             node = node[k]
         z = node[1]
-        for cand in [0, 1, -1, 2, -2, 3, -3, 5, -5, 10, -10]:
+        for cand in [0, 1, -1, 2, -2, 3, -3, 5, -5, 10, -10, 2**53 + 1, -2**53 - 1, 10**17 + 1, 2**64 + 3, 10**400]:
             if abs(cand) >= abs(z) or (node[0] in (0, 2, 4) and cand < 0) or (node[0] in (2, 4) and cand > 1):
                 continue
             t = copy.deepcopy(best)
@@ -492,7 +574,7 @@ def run(ctx):
                        "of operands of classes Nat Int Bool Float Str List, their Mut variants and plain int/bool/float/str/list "
                        "(60% class pairs the compiler accepts, rest mixed/arbitrary), unary - + abs, the modelled named methods, "
                        "constructor calls (the compiler's re-wrap); values boundary-heavy (0, +-1, +-2^31, +-2^63, 2^100.., "
-                       "signed zeros, inf, nan, subnormals, empty/non-ASCII strings); every case under Python 3.7-3.11; "
+                       "signed zeros, inf, nan, subnormals, empty/non-ASCII strings), 7% integer operators on operands beyond 2**53 / beyond the float range (10**400); every case under Python 3.7-3.11; "
                        "non-trivial = distinct case that the model covers and that does not end in TypeError/AttributeError")
     ctx.cov["trusted_base"] = ["Coq 8.16.1 kernel", "extraction (ExtrOcamlBasic only) + extract/driver.ml",
                                "pylib/c26_driver.py (builds operands, encodes results, computes the built-in reference and the float oracle)",
@@ -503,6 +585,9 @@ def run(ctx):
                        "declared class is judged modulo the constructor call codegen.rs (emit_expr/should_wrap) puts around every "
                        "typed operator/call expression; `strict` instances are reported separately (known/C26.json K_plain)",
                        "str % (formatting), list ordering, str()/int() of strings, a plain str/list left of a Mut operand are not modelled"]
+    for f in os.listdir(os.path.join(OUT, "replays")):
+        if f.startswith("C26-%d-" % ctx.seed):
+            os.remove(os.path.join(OUT, "replays", f))      # replay files of an earlier run must not be mistaken for this run's
     table = gen_sigs(ctx)
     proof = ctx.coq(["Runtime/Props_C26.v"])
     model = ctx.model("Runtime")
@@ -514,6 +599,9 @@ def run(ctx):
     known = ctx.known()
     kw = [(k, k["witness"]["case"]) for k in known if isinstance(k.get("witness"), dict) and "case" in k["witness"]]
     cases += [w for _, w in kw]
+    grid = int_grid()
+    ctx.cov["boundary_grid"] = "%d cases: 13 operators x ordered pairs of Nat Int Bool int bool Float x boundary values, 3 unary operators" % len(grid)
+    cases += grid
     n = ctx.scale(2500, 60000)
     for _ in range(n):
         cases.append(gen_case(ctx.rng, table))
